@@ -140,7 +140,8 @@ def aten_add(self: TTensor, other: TTensor, alpha: float = 1.0) -> TTensor:
     if self.dtype == ir.DataType.BOOL:
         # alpha can also be bool
         if alpha == 0:
-            return op.Identity(self)
+            # alpha * other is all False; Or keeps the broadcast shape of (self, other)
+            other = op.And(other, op.Constant(value=ir.tensor(False)))
         return op.Or(self, other)
 
     if alpha != 1.0:
